@@ -71,9 +71,13 @@ PARSER_REPAIRED = {"StaleSkip": "FALSE", "ParenReusesSkip": "FALSE", "EatIgnores
 DEFAULT_CONSTS = {"ZeroPowEarlyExit": "FALSE", "ZeroEntriesKept": "FALSE", "Temperature": "FALSE"}
 
 
+_SELFTESTED = set()
+
+
 def validate(chk, path, name, module="Trace_Lang", consts=None, fac="UStdFacR", observed=None, chunk=1200, jobs=12,
-             env=None, label=None, timeout=3000):
+             env=None, label=None, timeout=3000, _selftest=True):
     recs = vlib.read_ndjson(path)
+    history = chunk >= 10 ** 9      # the validator carries a history over the whole list
     res = Result()
     # numbers of more than ~40 000 digits cost TLC minutes each (Horner over the limbs): such records are beyond the
     # explored domain and are set aside (counted), not judged
@@ -144,7 +148,48 @@ def validate(chk, path, name, module="Trace_Lang", consts=None, fac="UStdFacR", 
                 res.mismatches.append({"id": v["id"], "problems": v["problems"], "rec": by_id.get(v["id"]), "extra": v})
         chk.model("%s(%s chunk %d: %d records)" % (module, label or name, i, len(chunks[i])), t, "trace validation")
     chk.cov["traces_validated_against_impl"] += res.records
+    if _selftest and (module, str(consts)) not in _SELFTESTED:
+        binding_selftest(chk, recs, res, name, module, history,
+                         dict(module=module, consts=consts, fac=fac, observed=observed, chunk=chunk, jobs=jobs, env=env, timeout=timeout))
     return res
+
+
+def binding_selftest(chk, recs, res, name, module, history, kw):
+    """corrupt a few of the records just accepted and require the same validator to reject them (lib/selftest.py)"""
+    import selftest
+    bad_ids = {m["id"] for m in res.mismatches}
+    clean = {r["id"] for r in recs} - bad_ids
+    cor = selftest.corrupted(recs, module, clean, distinct=history)
+    if not cor:
+        return
+    if history:
+        by = {c["id"]: c for _, c in cor}
+        rows = [by.get(r["id"], r) for r in recs]
+    else:
+        rows = []
+        for k, (_, c) in enumerate(cor):
+            c["id"] = 1000000000 + k
+            rows.append(c)
+    p = os.path.join(vlib.WORK, name, "selftest.ndjson")
+    vlib.write_ndjson(p, rows)
+    r2 = validate(selftest.Quiet(), p, name + "-selftest", label="binding self-test", _selftest=False, **kw)
+    rejected = {m["id"] for m in r2.mismatches} - bad_ids
+    # a validator with a history may notice the corrupted record at a later record about the same query
+    texts = {m["rec"].get("text") for m in r2.mismatches if m["id"] in rejected and m.get("rec")} if history else set()
+    report = {}
+    for kind, c in cor:
+        a = report.setdefault(kind, [0, 0])
+        a[1] += 1
+        a[0] += c["id"] in rejected or (history and c.get("text") is not None and c.get("text") in texts)
+    vlib.log("[selftest] %s: %s" % (module, ", ".join("%s %d/%d rejected" % (k, a, b) for k, (a, b) in report.items())))
+    chk.cov.setdefault("binding_selftest", {})
+    st = chk.cov["binding_selftest"].setdefault(module, {})
+    for kind, (a, b) in report.items():
+        st[kind] = "%d of %d corrupted records rejected" % (a, b)
+    dead = [k for k, (a, b) in report.items() if a == 0]
+    if dead:
+        raise ToolError("binding self-test: %s accepted every record corrupted in: %s (see %s)" % (module, ", ".join(dead), p))
+    _SELFTESTED.add((module, str(kw.get("consts"))))
 
 
 def show(rec):
